@@ -4,6 +4,7 @@
 #include <ctpg/ctpg.hpp>
 #include <initializer_list>
 #include <iostream>
+#include <optional>
 #include <sstream>
 #include <string>
 #include <vector>
@@ -62,6 +63,21 @@ int main() {
       ul got_ref = 0; for (size_t i = n; i-- > 0;) { ul v = (i % 3 ? 1 : 2); got_ref = (i == n - 1) ? v : v * 3UL + got_ref; }   // unsigned arithmetic wraps, same in the functors
       try { auto r = p.parse(string_buffer(std::move(in))); CHECK(r && *r == got_ref, "right-recursive list of " << n << " items: wrong value (children taken from wrong stack slots?)"); }
       catch (const std::exception& e) { ++fails; std::cout << "FAIL right-recursive list of " << n << " items threw " << e.what() << "\n"; }
+    } }
+  // --- buffer objects with a history: the lexemes handed to term functors are slices of THE PARSED buffer's own text, also after the
+  // buffer object was moved or copied and the object it came from was reused or destroyed (short texts live inside the std::string object)
+  { constexpr nterm<std::string> WS("words"); static constexpr char wpat[] = "[a-z0-9]+"; constexpr regex_term<wpat> word("word");
+    static const parser pw(WS, terms(word, '+'), nterms(WS), rules(
+      WS(word) >= [](std::string_view w) { return std::string(w); },
+      WS(WS, '+', word) >= [](std::string&& l, skip, std::string_view w) { return std::move(l) + " + " + std::string(w); }));
+    auto show = [](const std::optional<std::string>& r) { return r ? *r : std::string("none"); };
+    for (std::string text : { std::string("12+34"), std::string("a+b+c"), std::string("averyveryveryverylongword+anotherveryveryverylongword+z") }) {
+      std::string want; for (char c : text) { if (c == '+') want += " + "; else want += c; }
+      { string_buffer a(text.c_str()); string_buffer b(std::move(a)); a = string_buffer("99+99"); CHECK(show(pw.parse(b)) == want, "moved string_buffer, source reused: got " << show(pw.parse(b)) << " want " << want); }
+      { auto* a = new string_buffer(std::string(text)); string_buffer b(*a); delete a; string_buffer junk("zz+zz+zz"); CHECK(show(pw.parse(b)) == want, "copied string_buffer, source destroyed: got " << show(pw.parse(b)) << " want " << want); }
+      { string_buffer a(text.c_str()); string_buffer b("0"); b = a; a = string_buffer("7+7"); CHECK(show(pw.parse(b)) == want, "copy-assigned string_buffer: got " << show(pw.parse(b)) << " want " << want); }
+      { std::string keep = text; string_view_buffer v1{std::string_view(keep)}; string_view_buffer v2(v1); CHECK(show(pw.parse(v2)) == want, "copied string_view_buffer"); }
+      { auto mk = [&] { return string_buffer(std::string(text)); }; string_buffer b = mk(); CHECK(show(pw.parse(b)) == want, "string_buffer returned from a function"); }
     } }
   std::cout << "fails=" << fails << "\n"; return fails ? 1 : 0;
 }
